@@ -397,6 +397,16 @@ class GitStore(Store):
     def _iterblobs(self, ctag=None):
         raise NotImplementedError(self._iterblobs)
 
+    def _get_tree_for_ctag(self, ctag):
+        try:
+            return self.repo.object_store[ctag.encode("ascii")]
+        except KeyError as exc:
+            if ctag == Tree().id.decode("ascii"):
+                # The ctag of a store without any files; the empty tree
+                # object is not necessarily present in the object store.
+                return Tree()
+            raise InvalidCTag(ctag) from exc
+
     def iter_with_etag(self, ctag=None):
         """Iterate over all items in the store with etag.
 
@@ -602,10 +612,7 @@ class BareGitStore(GitStore):
         if ctag is None:
             tree = self._get_current_tree()
         else:
-            try:
-                tree = self.repo.object_store[ctag.encode("ascii")]
-            except KeyError as exc:
-                raise InvalidCTag(ctag) from exc
+            tree = self._get_tree_for_ctag(ctag)
         for name, mode, sha in tree.iteritems():
             name = name.decode(DEFAULT_ENCODING)
             if name == CONFIG_FILENAME:
@@ -810,10 +817,7 @@ class TreeGitStore(GitStore):
         :yield: (name, etag) tuples
         """
         if ctag is not None:
-            try:
-                tree = self.repo.object_store[ctag.encode("ascii")]
-            except KeyError as exc:
-                raise InvalidCTag(ctag) from exc
+            tree = self._get_tree_for_ctag(ctag)
             for name, mode, sha in tree.iteritems():
                 name = name.decode(DEFAULT_ENCODING)
                 if name == CONFIG_FILENAME:
